@@ -52,10 +52,11 @@ class SynSpan(Span):
         return 's'
 
     def add_attribute(self, key, value):
-        pass
+        # calls into the plugin's span like create / close: they can fail like those
+        self.plugin._call('span_event', 'attribute')
 
     def add_event(self, name, attributes=None):
-        pass
+        self.plugin._call('span_event', 'event')
 
     def close(self):
         self.closed += 1
